@@ -118,7 +118,10 @@ theorem c08_step_refines {g : UGraph} (h : WF g) (op : Op) :
     refine ⟨h, ?_⟩
     show (if Out.nat (abs g).edges.length = Out.nat g.nbEdges then some (abs g) else none) = some (abs g)
     rw [h.edgesOk.nb]; exact if_pos rfl
-  | allNodes => exact ⟨h, if_pos rfl⟩
+  | allNodes =>
+    have : UGraph.step .repaired g .allNodes = (g, .nats (sortNat (g.nodeMap.map (·.2)))) := by
+      simp only [UGraph.step, h.len]
+    rw [this]; exact ⟨h, if_pos rfl⟩
   | allEdges =>
     refine ⟨h, ?_⟩
     show (if Out.pairs (sortPairs ((abs g).edges.map (fun e => (e.1, e.2.1)))) = Out.pairs (sortPairs g.allEdges)
@@ -295,7 +298,7 @@ theorem c08_value_until_removed {g : UGraph} (h : WF g) (i v : Nat) (hv : g.getN
     · obtain ⟨g', hg', _, hnm, _⟩ := removeEdge_ok h a b hc
       rw [hg', hnm, hv]
   | clear => exact absurd rfl hcl
-  | size | numNodes | isEmpty | getLastIndex => simp only [UGraph.step, h.len]; (try split) <;> exact hv
+  | size | numNodes | isEmpty | getLastIndex | allNodes => simp only [UGraph.step, h.len]; (try split) <;> exact hv
   | outgoing a => simp only [UGraph.step]; split <;> exact hv
   | getRootNode => simp only [UGraph.step]; split <;> exact hv
   | _ => exact hv
